@@ -333,9 +333,17 @@ def check_main(engine, prop, tiers, argv=None):
                 continue
             entry = {"count": 1, "signature": sig, "detail": v["detail"], "run": i}
             reported[sig_key(sig)] = entry
+    n_listed = 0
     for key, entry in sorted(reported.items(), key=lambda kv: kv[1]["run"]):
         r = results[entry["run"]]
         replay = None
+        n_listed += 1
+        if n_listed > 2 * MAX_MINIMISE and exit_code == 1:
+            entry["unlisted"] = True
+            continue
+        if os.environ.get("VERIF_NO_MINIMISE"):
+            print(f"# (not minimised) {entry['signature']} run {entry['run']}")
+            continue
         if minimised < MAX_MINIMISE:
             minimised += 1
             print(f"# minimising {entry['signature']} (run {entry['run']}, seen in {entry['count']} runs)")
@@ -371,6 +379,9 @@ def check_main(engine, prop, tiers, argv=None):
         print(f"  {fsig}\n  {replay['verdict']['detail']}")
         print(f"VIOLATION property={prop} replay={path}")
         exit_code = max(exit_code, 1)
+    extra = sum(1 for e in reported.values() if e.get("unlisted"))
+    if extra:
+        print(f"# ... and {extra} more distinct violation signatures not listed individually")
     for what, n in sorted(known_hits.items()):
         line = f"KNOWN-FINDING: property={prop} {what}"
         if line not in known_lines:
